@@ -96,6 +96,15 @@ Theorem C28_eval_spec_ok_sound : forall g st,
 Proof. exact auth_chain_ok_iff. Qed.
 Print Assumptions C28_eval_spec_ok_sound.
 
+(* oracle of the composed cases (same group through verify.TxnGroup and the evaluator) = the
+   conclusion of C28_only_current_authorizer *)
+Theorem C28_compose_spec_ok_sound : forall sig_ok pq_ok H l g st, length l = length g ->
+  (compose_ok sig_ok pq_ok H st l g = true <->
+   forall j s, nth_error l j = Some s ->
+     accept_ok sig_ok pq_ok H (current_authorizer (state_before st g j) (t_sender s)) s).
+Proof. exact compose_ok_iff. Qed.
+Print Assumptions C28_compose_spec_ok_sound.
+
 (* ---- non-vacuity: concrete groups that are accepted / rejected ---- *)
 Definition ex_params : vparams := mkVParams true true true 10 false true true 16000 1000.
 Definition ex_nomsig : msig := mkMsig 0 0 true [].
